@@ -37,6 +37,7 @@ type hCall struct {
 	ReenterJSON bool // ... as a JSON output with default options (ReenterSame: of the tree being walked, whatever its branch strings)
 	AddLate  bool // walks (callback form): at its second visit the callback adds the node Name under the root of the tree being walked
 	Model *MNode // op: clone of the tree's model at call time (what the result must be a function of)
+	Share *MNode // verify: not nil = the call verifies against the history's one shared directory, which holds exactly this tree
 	// results
 	Res *opResult
 }
@@ -56,6 +57,9 @@ func (h hCall) String() string {
 		}
 		if h.AddLate {
 			extra = fmt.Sprintf(" (at its second visit the callback does t%d.Add(%q))", h.Tree, h.Name)
+		}
+		if h.Share != nil {
+			extra += " (against the directory shared by all such calls, which holds " + modelStr(h.Share) + ")"
 		}
 		return fmt.Sprintf("task%d: %s on t%d%s", h.Task, h.Op, h.Tree, extra)
 	default:
@@ -200,7 +204,12 @@ func execCall(h *hCall, root *gtree.Node, jail string, idx int, yield bool, rw *
 		if h.Kind == "mdop" {
 			model = nil
 		}
-		if h.Op.Kind == "verify" {
+		if h.Op.Kind == "verify" && h.Share != nil {
+			// several callers verify against one directory (Verify only reads it); whoever comes
+			// first prepares it, everybody with the same content
+			target = filepath.Join(jail, "shared")
+			prepDir(target, h.Share, "exact")
+		} else if h.Op.Kind == "verify" {
 			prepDir(target, model, h.Prep)
 		} else {
 			os.MkdirAll(target, 0o755)
@@ -656,6 +665,37 @@ func genHistory(c *Ctx, o histOpts) (calls []*hCall, nTasks int, nontrivial bool
 			calls = append(calls, h)
 		}
 	}
+	if o.allowMd && nTasks >= 2 && len(trees) > 0 && c.Chance(1, 8) {
+		// two callers verify DIFFERENT trees with the same root name against the SAME directory
+		// at the same time: each verdict is a function of its own tree and the directory
+		t := trees[c.Draw(len(trees))]
+		other := (t.owner + 1 + c.Draw(nTasks-1)) % nTasks
+		twin := &mtree{owner: other, model: &MNode{Name: t.model.Name}}
+		twin.nodes = []*MNode{twin.model}
+		trees = append(trees, twin)
+		ti, tw := 0, len(trees)-1
+		for i, x := range trees {
+			if x == t {
+				ti = i
+			}
+		}
+		calls = append(calls, &hCall{Kind: "newroot", Task: other, Tree: tw, Name: t.model.Name})
+		for j := 0; j < 1+c.Draw(3); j++ {
+			k := &MNode{Name: fmt.Sprintf("twin-%d", j)}
+			twin.model.Kids = append(twin.model.Kids, k)
+			twin.nodes = append(twin.nodes, k)
+			calls = append(calls, &hCall{Kind: "add", Task: other, Tree: tw, Node: 0, Name: k.Name})
+		}
+		shared := t.model.Clone()
+		for r := 0; r < 2+c.Draw(3); r++ {
+			for _, x := range []int{ti, tw} {
+				op := Op{FromRoot: true, Kind: "verify", Strict: c.Draw(2) == 1, Massive: c.Chance(1, 5)}
+				calls = append(calls, &hCall{Kind: "op", Task: trees[x].owner, Tree: x, Op: op, Model: trees[x].model.Clone(), Prep: "exact", Share: shared, ShareOpt: op.Massive && c.Draw(2) == 0})
+			}
+		}
+		c.st.Count("history.with-verify-calls-sharing-a-directory")
+		nontrivial = true
+	}
 	if o.allowMd && c.Chance(1, 12) {
 		// a bystander: one more caller whose massive call on a document with many roots is held
 		// up by its own writer (the first Write returns only when every other caller is done).
@@ -714,7 +754,7 @@ func caseC13(c *Ctx) {
 		if h.Kind != "op" && h.Kind != "mdop" {
 			continue
 		}
-		ref := &hCall{Kind: h.Kind, Op: h.Op, Doc: h.Doc, Prep: h.Prep, Model: h.Model}
+		ref := &hCall{Kind: h.Kind, Op: h.Op, Doc: h.Doc, Prep: h.Prep, Model: h.Model, Share: h.Share}
 		var root *gtree.Node
 		if h.Kind == "op" {
 			root = buildNode(h.Model)
